@@ -26,10 +26,10 @@ META.update({
         text="exploration + proved links: each common logic function is proved equal to its spec for every bucket set; lemmas prove that "
              "executing its commands on a (rule,key) slot turns the old row into the new one under make_pre's bucket invariant (default, "
              "ordered, undo_redo; rewrite/ignore_changes except in their by-design cases), that removal precedes re-creation, and that the depth "
-             "at which cmd_paths sends a command equals the depth at which patch() shows it; make_pre is proved equal to its grouping spec. The composition through make_diff/"
-             "make_patch is NOT proved: end-to-end convergence, second diff empty and chains are decided by the bounded layer "
+             "at which cmd_paths sends a command equals the depth at which patch() shows it; make_pre is proved equal to its grouping spec, base_diff / default_diff / ordered_diff equal to the per-level "
+             "diff spec. The composition through call_diff_logic / make_patch is NOT proved: end-to-end convergence, second diff empty and chains are decided by the bounded layer "
              "(8 rulebook families x 5 vendors x pairs/chains of small trees, device simulator from the statement). 12 known findings.",
-        note="make_diff, make_patch, get_order not under discharged contracts; device semantics for %rewrite/%ordered from DESIGN.md",
+        note="call_diff_logic (assumed), make_patch, get_order not under discharged contracts; device semantics for %rewrite/%ordered from DESIGN.md",
     ),
     "C02": dict(
         technique="contract-based deductive verification of apply_acl_diff / apply_acl (AST->VC with ADT lists/dicts, z3) relative to the assumed matcher contract + lemmas (no undeletable row stays REMOVED; negations only from REMOVED/MOVED buckets); " + _B,
